@@ -502,7 +502,7 @@ func Spec() *core.Spec {
 			}},
 			{Name: "random", N: func(tier string) int {
 				if tier == core.Thorough {
-					return 200000
+					return 1500000
 				}
 				return 3000
 			}, Run: func(c *core.Ctx, r *core.Rand, i int) {
